@@ -103,6 +103,32 @@ def translate():
         _expect(a.value, f'self._intersect_tuples((self.nodal_rows, self.facet_rows, self.edge_rows, self.interior_rows), {sk})', nm)
         r = t2.only([s for s in f.body if isinstance(s, ast.Return)], nm + ' return')
         _expect(r.value, 'replace(self, nodal_rows=nrows[0], facet_rows=nrows[1], edge_rows=nrows[2], interior_rows=nrows[3])', nm)
+    # _by_name and the four DofsView properties (per-name dictionaries)
+    f = t2.find_def(tree, '_by_name', 'Dofs')
+    body = [t2.src(x) for x in f.body if not (isinstance(x, ast.Expr) and isinstance(x.value, ast.Constant))]
+    want = ['n_dofs = dofs.shape[0]', 'n_ents = dofs.shape[1] if ix is None else len(ix)',
+            'if rows is None:\n    rows = list(range(n_dofs))',
+            'ents = {self.element.dofnames[rows[i] + off]: np.zeros((0, n_ents), dtype=np.int32) for i in range(n_dofs)}',
+            'for i in range(n_dofs):\n    new_row = dofs[i] if ix is None else dofs[i, ix]\n    '
+            'ents[self.element.dofnames[rows[i] + off]] = np.vstack((ents[self.element.dofnames[rows[i] + off]], new_row))',
+            'return {k: ents[k].flatten() for k in ents}']
+    if body != want:
+        raise TranslateError('Dofs._by_name body: ' + repr([g for g, w in zip(body + [''] * 9, want + [''] * 9) if g != w][:2]))
+    shp = {'self.nodal_dofs.shape[0]': 'n_nodal', 'self.facet_dofs.shape[0]': 'n_facet', 'self.edge_dofs.shape[0]': 'n_edge'}
+    bn = {}
+    for kd in ('nodal', 'facet', 'edge', 'interior'):
+        pf = t2.find_def(cls, kd)
+        r = t2.only([x for x in pf.body if isinstance(x, ast.Return)], f'DofsView.{kd} return')
+        c = r.value
+        if not (isinstance(c, ast.Call) and t2.src(c.func) == 'self._by_name' and len(c.args) == 1
+                and t2.src(c.args[0]) == f'self.{kd}_dofs[self.{kd}_rows]'):
+            raise TranslateError(f'DofsView.{kd}: ' + t2.src(r))
+        kws = {k.arg: k.value for k in c.keywords}
+        if set(kws) - {'off', 'ix', 'rows'} or t2.src(kws.get('ix')) != f'self.{kd}_ix' or t2.src(kws.get('rows')) != f'self.{kd}_rows':
+            raise TranslateError(f'DofsView.{kd} keywords: ' + t2.src(r))
+        bn[kd] = '0' if 'off' not in kws else t2.Expr({}, 'nat', sub=lambda ex, n: shp[t2.src(n)] if t2.src(n) in shp else (_ for _ in ()).throw(TranslateError('offset term ' + t2.src(n)))).tr(kws['off'])
+    if bn['nodal'] != '0':
+        raise TranslateError('DofsView.nodal has an offset')
     # _expand_facets
     mt = t2.parse('skfem/mesh/mesh.py')
     f = t2.find_def(mt, '_expand_facets', 'Mesh')
@@ -120,6 +146,7 @@ Definition gen_name_index_nodal (n_nodal n_facet n_edge n_interior i : nat) : na
 Definition gen_name_index_facet (n_nodal n_facet n_edge n_interior i : nat) : nat := {offs['facet']}.
 Definition gen_name_index_edge (n_nodal n_facet n_edge n_interior i : nat) : nat := {offs['edge']}.
 Definition gen_name_index_interior (n_nodal n_facet n_edge n_interior i : nat) : nat := {offs['interior']}.
+Definition gen_byname_offsets (n_nodal n_facet n_edge : nat) : offsets := ({bn['facet']}, {bn['edge']}, {bn['interior']}).
 Definition gen_offsets (n_nodal n_facet n_edge : nat) : offsets :=
   (gen_name_index_facet n_nodal n_facet n_edge 0 0, gen_name_index_edge n_nodal n_facet n_edge 0 0,
    gen_name_index_interior n_nodal n_facet n_edge 0 0).
@@ -144,6 +171,9 @@ Proof.
   assert (E3 : gen_name_index_interior n_nodal n_facet n_edge 0 0 = n_nodal + n_edge + n_facet) by (unfold gen_name_index_interior; lia).
   rewrite E1, E2, E3. reflexivity.
 Qed.
+Lemma gen_byname_offsets_bfun_order : forall n_nodal n_facet n_edge,
+  gen_byname_offsets n_nodal n_facet n_edge = (n_nodal + n_edge, n_nodal, n_nodal + n_edge + n_facet).
+Proof. intros. unfold gen_byname_offsets. apply f_equal2; [apply f_equal2|]; lia. Qed.
 '''
 
 NAME_ORDER_REFUTED = '''(* GENERATED (known finding names:edge-facet-order): the offsets read from the source are NOT the basis-function order *)
@@ -255,7 +285,7 @@ class Context:
         self.tagsF = {k: (i, v) for i, (k, v) in enumerate(sorted(bt.items()))}
         self.tagsE = {k: (i, v) for i, (k, v) in enumerate(sorted(st.items()))}
         self.elem = fac()
-        self.basis = Basis(m, self.elem)
+        self.basis = Basis(m, self.elem, intorder=2)
         e = self.elem
         self.counts = (int(e.nodal_dofs), int(e.edge_dofs), int(e.facet_dofs), int(e.interior_dofs))
         self.dim = C04.guard_dim(e)
@@ -281,7 +311,9 @@ class Context:
 
 
 CORR_DEFS = '''
-Inductive post := PFlat | PAll (names : list nat) | PKeep (names : list nat) | PDrop (names : list nat).
+Inductive post := PFlat | PAll (names : list nat) | PKeep (names : list nat) | PDrop (names : list nat)
+  | PByName (kd : kind) (mode : nat) (names : list nat).   (* .nodal/.facet/.edge/.interior of the view (mode 1: after keep, 2: after drop) *)
+Definition enc_dict (d : list (nat * list nat)) : list nat := flat_map (fun nl => fst nl :: length (snd nl) :: snd nl) d.
 Inductive query :=
 | QF (s : sel) (skip : list nat) (p : post)
 | QE (s : sel) (skip : list nat) (p : post)
@@ -297,12 +329,16 @@ Definition run (c : ctxt * list query) : list (option (list nat)) :=
   let '(((dim, nd, ed, fd, id), (nv, ne, nf, nt), (t, t2e, t2f), (facets, f2e, dim3), (bfac, dofnames, tagsF, tagsE)), qs) := c in
   let D := gen_dofs_init dim nd ed fd id 0 nv ne nf nt t t2e t2f in
   let offs := gen_offsets (length (D_nodal D)) (length (D_facet D)) (length (D_edge D)) in
+  let boffs := gen_byname_offsets (length (D_nodal D)) (length (D_facet D)) (length (D_edge D)) in
   let fin (v : view) (p : post) : list nat :=
     match p with
     | PFlat => flatten D v
     | PAll names => all_named D dofnames offs v names
     | PKeep names => flatten D (keep D dofnames offs v names)
     | PDrop names => flatten D (drop D dofnames offs v names)
+    | PByName kd mode names =>
+        let w := match mode with 1 => keep D dofnames offs v names | 2 => drop D dofnames offs v names | _ => v end in
+        enc_dict (view_by_name D w dofnames boffs kd)
     end in
   let nF := normalize nf (Some bfac) false (lookup tagsF) in
   let nE := normalize nt None true (lookup tagsE) in
@@ -341,29 +377,45 @@ def make_queries(rng, c, nq):
         kind = ['F', 'F', 'F', 'E', 'N', 'or', 'compl'][int(rng.integers(7))]
         skip = _name_sets(rng, c) if rng.random() < 0.3 else []
         cskip = cnats([c.name_id(x) for x in skip])
-        pk = int(rng.integers(4))
+        pk = int(rng.integers(6))
         nm = _name_sets(rng, c)
+        if _ == 0:                      # one deterministic dictionary query per context: drop the FIRST name
+            kind, pk, nm, skip, cskip = 'F' if c.counts[0] + c.counts[2] > 0 else 'E', 5, [c.names[0]], [], cnats([])
         cnm = cnats([c.name_id(x) for x in nm])
-        post_c = ['PFlat', f'(PAll {cnm})', f'(PKeep {cnm})', f'(PDrop {cnm})'][pk]
+        bkd = ['Nodal', 'Facet', 'Edge', 'Interior'][int(rng.integers(4))]
+        if _ == 0:
+            bkd = 'Nodal' if c.counts[0] > 1 else ('Facet' if c.counts[2] > 1 else ('Interior' if c.counts[3] > 1 else 'Nodal'))
+            kind = 'E' if bkd == 'Interior' else kind
+        bmode = int(rng.integers(3)) if pk == 4 else 2
+        post_c = ['PFlat', f'(PAll {cnm})', f'(PKeep {cnm})', f'(PDrop {cnm})', f'(PByName {bkd} {bmode} {cnm})',
+                  f'(PByName {bkd} 2 {cnm})'][pk]
 
-        def post_py(v, pk=pk, nm=nm):
+        def post_py(v, pk=pk, nm=nm, bkd=bkd, bmode=bmode):
+            if pk >= 4:
+                w = [v, v.keep(nm), v.drop(nm)][bmode]
+                d = getattr(w, bkd.lower())
+                out = []
+                for k, a in d.items():
+                    a = np.asarray(a).tolist()
+                    out += [c.name_id(k), len(a)] + [int(x) for x in a]
+                return out
             return [lambda: v.flatten(), lambda: v.all(nm), lambda: v.keep(nm).flatten(), lambda: v.drop(nm).flatten()][pk]()
         kw = {'skip': skip} if skip else {}
         if kind == 'F':
             s = rand_selector(rng, c.n['F'], c.tagsF, c.predF, {'int', 'arr', 'default', 'pred', 'tag', 'coll'})
             out.append((f'(QF {s.coq} {cskip} {post_c})', (lambda s=s, kw=kw, post_py=post_py: post_py(b.get_dofs(s.py, **kw))),
-                        ('F', repr(s.py)[:80], skip, pk, nm), {'on': 'F', 'ids': [s.ids], 'skip': skip, 'pk': pk, 'nm': nm}))
+                        ('F', repr(s.py)[:80], skip, pk, nm, bkd if pk >= 4 else '', bmode if pk >= 4 else ''), {'on': 'F', 'ids': [s.ids], 'skip': skip, 'pk': pk, 'nm': nm, 'bkd': bkd, 'bmode': bmode}))
         elif kind == 'E':
             s = rand_selector(rng, c.n['E'], c.tagsE, c.predE, {'int', 'arr', 'all', 'pred', 'tag', 'coll'})
             out.append((f'(QE {s.coq} {cskip} {post_c})', (lambda s=s, kw=kw, post_py=post_py: post_py(b.get_dofs(elements=s.py, **kw))),
-                        ('E', repr(s.py)[:80], skip, pk, nm), {'on': 'E', 'ids': [s.ids], 'skip': skip, 'pk': pk, 'nm': nm}))
+                        ('E', repr(s.py)[:80], skip, pk, nm, bkd if pk >= 4 else '', bmode if pk >= 4 else ''), {'on': 'E', 'ids': [s.ids], 'skip': skip, 'pk': pk, 'nm': nm, 'bkd': bkd, 'bmode': bmode}))
         elif kind == 'N':
             s = rand_selector(rng, c.n['N'], {}, c.predN, {'arr', 'pred', 'coll'})
             def detuple(x):                      # a tuple means "the point with these coordinates" for nodes
                 return [detuple(y) for y in x] if isinstance(x, (tuple, list)) else x
             s.py = detuple(s.py)
             out.append((f'(QN {s.coq} {cskip} {post_c})', (lambda s=s, kw=kw, post_py=post_py: post_py(b.get_dofs(nodes=s.py, **kw))),
-                        ('N', repr(s.py)[:80], skip, pk, nm), {'on': 'N', 'ids': [s.ids], 'skip': skip, 'pk': pk, 'nm': nm}))
+                        ('N', repr(s.py)[:80], skip, pk, nm, bkd if pk >= 4 else '', bmode if pk >= 4 else ''), {'on': 'N', 'ids': [s.ids], 'skip': skip, 'pk': pk, 'nm': nm, 'bkd': bkd, 'bmode': bmode}))
         elif kind == 'or':
             a = rand_selector(rng, c.n['F'], c.tagsF, c.predF, {'int', 'arr', 'default', 'pred', 'tag'})
             d = rand_selector(rng, c.n['F'], c.tagsF, c.predF, {'int', 'arr', 'pred', 'tag'})
@@ -432,6 +484,21 @@ def expected_query(c, spec, names):
     else:
         nd_ = np.asarray(b.nodal_dofs)
         base = set(nd_[:, sorted(ids)].flatten().tolist()) if nd_.size else set()
+    if spec['pk'] >= 4:
+        # per-name dictionary of one kind: {name id: sorted DOFs of the selected entities that carry that name}
+        nd, ed, fd, idd = c.counts
+        D = b.dofs
+        blk = {'Nodal': D.nodal_dofs, 'Edge': D.edge_dofs, 'Facet': D.facet_dofs, 'Interior': D.interior_dofs}[spec['bkd']]
+        blk = np.asarray(blk)
+        edn = ed if np.asarray(D.edge_dofs).size else 0
+        off = {'Nodal': 0, 'Edge': nd, 'Facet': nd + edn, 'Interior': nd + edn + fd}[spec['bkd']]
+        out = {}
+        for k in range(blk.shape[0] if blk.size else 0):
+            nm = c.names[off + k]
+            if nm in spec['skip'] or (spec['bmode'] == 1 and nm not in spec['nm']) or (spec['bmode'] == 2 and nm in spec['nm']):
+                continue
+            out.setdefault(c.name_id(nm), set()).update(int(d) for d in blk[k] if int(d) in base)
+        return {k: sorted(v) for k, v in out.items()}
     base = {d for d in base if names[d] not in spec['skip']}
     if spec['pk'] in (1, 2):
         base = {d for d in base if names[d] in spec['nm']}
@@ -481,6 +548,19 @@ def oracle_context(ctx, c, rng):
                          f'{len(set(byname) - set(wantn))} are not named {nm!r} by element.dofnames in basis-function order '
                          f'(nodal, edge, facet, interior); keep/drop/skip filter by the wrong names',
                          dict(data, facets=F.tolist(), name=nm, dofnames=c.names))
+    # per-name dictionaries of a restricted view: drop one name, every kind
+    both = c.counts[1] > 0 and c.counts[2] > 0 and np.asarray(b.edge_dofs).size > 0
+    for nm in sorted(set(c.names)):
+        w = b.get_dofs().drop([nm])
+        for kd in ('Nodal', 'Edge', 'Facet', 'Interior'):
+            got = {c.name_id(k): sorted(set(np.asarray(a).tolist())) for k, a in getattr(w, kd.lower()).items()}
+            want = expected_query(c, {'on': 'F', 'ids': ['default'], 'skip': [], 'pk': 5, 'nm': [nm], 'bkd': kd, 'bmode': 2}, names)
+            ctx.count(('by-name', c.kind, c.name, nm, kd, m.t.tolist()), nontrivial=bool(want))
+            if got != want:
+                ctx.fail(NAME_KEY if (both and kd in ('Edge', 'Facet')) else f'elem={c.name}:{c.kind}:by-name',
+                         f'{c.name} on {type(m).__name__}: get_dofs().drop([{nm!r}]).{kd.lower()} = {sorted(got.items())[:4]} (name ids '
+                         f'{c.name_ids}) but the DOFs carrying each surviving name are {sorted(want.items())[:4]}',
+                         dict(data, dropped=nm, kind_of_dofs=kd, dofnames=c.names))
     # elements / nodes
     nt = m.t.shape[1]
     E = rng.integers(0, nt, size=int(rng.integers(1, 4)))
@@ -583,9 +663,19 @@ def run(ctx):
                     ctx.count(('query', kind, name, desc, c.m.t.tolist()), nontrivial=len(r) > 0)
                     ctx.hist('query', desc[0])
                     want = expected_query(c, spec, dnames)
-                    if r != want:
+                    if spec['pk'] >= 4:          # decode [name, len, values...] and compare per name as sets
+                        got, i = {}, 0
+                        while i < len(r):
+                            got[r[i]] = sorted(set(r[i + 2:i + 2 + r[i + 1]]))
+                            i += 2 + r[i + 1]
+                        r_cmp = got
+                    else:
+                        r_cmp = r
+                    if r_cmp != want:
+                        r, want = (sorted(r_cmp.items()), sorted(want.items())) if spec['pk'] >= 4 else (r, want)
                         named = bool(spec['skip']) or spec['pk'] != 0
-                        ctx.fail(NAME_KEY if (both and named) else f'elem={name}:{kind}:query',
+                        edge_facet = spec['pk'] < 4 or spec['bkd'] in ('Edge', 'Facet')
+                        ctx.fail(NAME_KEY if (both and named and edge_facet) else f'elem={name}:{kind}:query',
                                  f'{name} on {type(c.m).__name__}: query {desc} returns {r[:12]}... but the DOFs of the selected entities '
                                  f'(closure by vertex sets, names in basis-function order) are {want[:12]}...',
                                  {'kind': kind, 'element': name, 'p': c.m.p.tolist(), 't': c.m.t.tolist(), 'query': repr(desc),
